@@ -42,7 +42,7 @@ func main() {
 		"the Coq pipeline model has no triggers and no name generation: for those cases the column names come from the generator's copy of the " +
 		"parser's naming rule and the check is the relational oracle (den_top) on the printed rows; " +
 		"non-trivial = at least one output row; distinct by full case text."
-	n := f.Cases(270, 2700)
+	n := f.Cases(220, 2200)
 	cases, err := relq.Generate(rng, n, relq.Profile{GroupBias: 9, MaxDepth: 1, AllowErrors: true, AliasShapes: true, AllowTriple: true, TriggerBias: 2, SimpleEvery: 3, Floats: true}, bin, home, work)
 	if err != nil {
 		fmt.Fprintln(os.Stderr, err)
@@ -55,6 +55,24 @@ func main() {
 		os.Exit(2)
 	}
 	cases = append(cases, trig...)
+	// three more deterministic families: aggregate columns consumed by an enclosing query; many distinct Float keys
+	// with both zeros; aggregates of an enclosing query over a TRIGGER COUNTING subquery
+	for _, fam := range []struct {
+		p   relq.Profile
+		n   int
+		dir string
+	}{
+		{relq.Profile{Having: true, Simple: true}, f.Cases(40, 400), "having"},
+		{relq.Profile{ManyKeys: true}, f.Cases(6, 30), "manykeys"},
+		{relq.Profile{OuterTrig: true, Simple: true}, f.Cases(32, 320), "outertrig"},
+	} {
+		more, err := relq.Generate(rng, fam.n, fam.p, bin, home, filepath.Join(work, fam.dir))
+		if err != nil {
+			fmt.Fprintln(os.Stderr, err)
+			os.Exit(2)
+		}
+		cases = append(cases, more...)
+	}
 	last := 0
 	for _, c := range cases {
 		last = relq.AddCase(cf, c)
